@@ -1,10 +1,6 @@
-(* C47 judges: 0 agree & holds; 1 differ, holds; 2 a ForceQueuingTag functor ran on the calling thread before the call returned
-   although numThreads >= 1. *)
+(* C47 judges: ForceQueuingTag never on the caller (lockstep log and D).  The judge functions themselves are shared: judge_C47 / judge_C47_impl in Model/TaskSetImplCheck.v (independent of the
+   regenerated decision functions) and, for the decision runs, judge_*_d in Model/TaskSetCheck.v. *)
 From Coq Require Import ZArith List Bool.
-From DV Require Import Base.MachInt Base.Sched Model.TaskSetModel Gen.GenTaskSet Model.TaskSetCheck.
-Import ListNotations.
+From DV Require Export Model.TaskSetImplCheck Model.TaskSetCheck.
 Local Open Scope Z_scope.
-
-Definition judge_C47 (c : lcase) : Z := if negb (check_C47 c) then 2 else if agrees c then 0 else 1.
-Definition judge_C47_d (d : dcase) : Z :=
-  if negb (d_check_C47 d) || negb (d_bulk_ok d) then 2 else if d_agrees d then 0 else 1.
+Definition C47_judge_lockstep := judge_C47.
